@@ -93,6 +93,9 @@ fn c01_cfg(ctx: &Ctx, hot: bool) -> CaseCfg {
     hot_kinds: vec![HotKind::Harness],
     max_rec: 1,
     hot_script: 6,
+    // re-entrant misbehaviour: the subscriber's callbacks (also the terminal ones) push
+    // further events into the hot source they are being called from
+    reactions: hot,
     ..CaseCfg::default()
   }
 }
@@ -120,6 +123,15 @@ fn c01_check(_ctx: &Ctx, c: &SeqCase) -> Report {
         if a.stamp > t && a.stamp < r.log.sentinel_stamp {
           nontrivial = true;
         }
+      }
+    }
+  }
+  for (k, ri) in &r.log.reactions_fired {
+    if c.case.recorders[*k][*ri].at == AT_TERMINAL {
+      nontrivial = true;
+      rep.classes.push("re-entrant-emission-from-terminal-callback".into());
+      if c.case.root.size() == 1 {
+        rep.classes.push("re-entrant-emission-from-terminal-callback:direct-subscription".into());
       }
     }
   }
